@@ -100,7 +100,7 @@ def eval_history(case):
         try:
             stems = stems_of(url) if form != "empty-lru" else []
             if form == "empty-lru":
-                t.set_lru([] if val % 2 else "p:|", val)   # the empty LRU (or one made of an empty path stem only) is a key like any other
+                t.set_lru([] if len(url) % 2 else "p:|", val)   # the empty LRU (or one made of an empty path stem only) is a key like any other
             elif form == "url":
                 t.set(url, val)
             elif form == "item":
@@ -176,13 +176,14 @@ EVALUATORS = {"lrutrie_history": eval_history}
 SMALL = ["http://a.com", "http://a.com/", "http://a.com/x", "http://a.com/x/", "http://a.com/x/y", "http://a.com//x",
          "http://a.com/x?q=1", "http://a.com/x#f", "http://a.com/x?q=1#f", "http://b.a.com", "http://b.a.com/x",
          "https://a.com", "https://a.com/x", "http://a.com:8080", "http://a.com:8080/x", "http://com", "http://a.co.uk",
-         "http://b.a.co.uk/x", "http://co.uk", "http://a.com/xy", "http://a.com/x|y?q=1|2", "http://a.com/x?q=1|", "http://a.com:0", "http://a.com:0/x", "http://a.com./", "http://a.com:/x"]
+         "http://b.a.co.uk/x", "http://co.uk", "http://a.com/xy", "http://a.com/x|y?q=1|2", "http://a.com/x?q=1|", "http://a.com:0", "http://a.com:0/x", "http://a.com./", "http://a.com:/x",
+         "http://a.com/x//", "http://a.com///x"]      # runs of empty path stems
 SMALL_Q = SMALL + ["http://c.b.a.com/x/y/z?q=1#f", "http://a.com/x/y/z", "http://A.com/x", "http://www.a.com/x", "a.com/x",
                    "http://a.com/X", "http://x.co.uk", "http://a.com:8080/x/y", "https://b.a.com/x", "http://a.com/x/?q=1",
                    "http://a.com/x//y", "http://ab.com", "http://a.com/?q=1", "http://a.com/#f", "http://uk",
                    "http://a.com/x/index.html", "http://a.com/x?utm_source=z", "HTTP://A.COM/x/", "http://a.com/%78",
                    "http://fr.a.com/x", "http://a.com/../x", "http://a.com/x/../../x/y", "http://a.com/x|y", "http://a.com/x|y?q=1|2#f|g",
-                   "http://a.com/./x/y/.."]
+                   "http://a.com/./x/y/..", "http://a.com/x///y", "http://a.com//x//", "http://a.com/x/y/w"]
 
 
 def _nt(case):
@@ -225,6 +226,9 @@ def _cl(case):
     return sorted(set(out))
 
 
+VALS = [0, 1, "", 2, False, "v", 3]      # stored values are arbitrary metadata: falsy ones included (None aside, it is the "nothing stored" answer)
+
+
 def _enum(acc, shard, nshards, seed, tier, length=2):
     forms = ["url", "lru", "list", "item"]
     idx = 0
@@ -235,14 +239,14 @@ def _enum(acc, shard, nshards, seed, tier, length=2):
                     idx += 1
                     if idx % nshards != shard:
                         continue
-                    ops = [[forms[(j + k + idx) % 4], SMALL[j], k + 1] for k, j in enumerate(combo)]
+                    ops = [[forms[(j + k + idx) % 4], SMALL[j], VALS[(k + idx) % len(VALS)] if L > 1 else k + 1] for k, j in enumerate(combo)]
                     case = {"kind": "lrutrie_history", "cls": cname, "suffix_aware": sa, "ops": ops, "queries": SMALL_Q}
                     acc.check(case, _nt(case), _cl(case) if idx % 29 == 0 else (), distinct=True)
 
 
 BIG_HOSTS = ["a.com", "b.a.com", "c.b.a.com", "www.a.com", "a.co.uk", "b.a.co.uk", "com", "x.kawasaki.jp", "a.x.kawasaki.jp",
              "A.com", "fr.a.com", "m.a.com", "a.com.", "uk", "co.uk", "bbc.co.uk"]
-BIG_PATHS = ["", "/", "/x", "/x/", "/x/y", "/x//y", "/x/y/z", "/X", "/x/index.html", "/%78", "/x/amp/",
+BIG_PATHS = ["", "/", "/x", "/x/", "/x/y", "/x//y", "/x//", "///x", "/x///y/", "/x/y/z", "/X", "/x/index.html", "/%78", "/x/amp/",
              # dot segments, also climbing above the root; a literal '|' inside a stem (never followed by '<stem letter>:', which the
              # serialized format cannot tell from a separator)
              "/../x", "/x/../../x/y", "/./x/y/..", "/x|y", "/x/L|R/z"]
@@ -256,16 +260,25 @@ KW = {
 }
 
 
+_SCHEME_LIKE = __import__("re").compile(r"^(?:[a-zA-Z]{0,64}:?//|[A-Za-z][A-Za-z0-9+.\-]*://)")
+
+
+def _unambiguous(url):
+    """'com///x' and 'a.com:///x' read as '<protocol>//...' (the library's notion, resp. the RFC's): they are not the scheme-less spelling of a URL,
+    so the generated URL gets an explicit scheme (same rule as C12)"""
+    return "http://" + url if (not url.startswith(("http://", "https://")) and _SCHEME_LIKE.match(url)) else url
+
+
 def _strategy(tier):
     url = st.tuples(st.sampled_from(["http://", "https://", "http://", ""]), st.sampled_from(BIG_HOSTS),
-                    st.sampled_from(["", "", ":8080", ":80", ":0", ":080", ":"]), st.sampled_from(BIG_PATHS), st.sampled_from(BIG_TAILS)).map("".join)
+                    st.sampled_from(["", "", ":8080", ":80", ":0", ":080", ":"]), st.sampled_from(BIG_PATHS), st.sampled_from(BIG_TAILS)).map("".join).map(_unambiguous)
 
     @st.composite
     def hist(draw):
         cname = draw(st.sampled_from(CLASSES))
         kw = draw(st.sampled_from(KW[cname]))
         n = draw(st.integers(1, 25 if tier == "thorough" else 10))
-        ops = [[draw(st.sampled_from(["url", "lru", "list", "item", "url", "lru", "list", "item", "empty-lru"])), draw(url), draw(st.integers(1, 5))] for _ in range(n)]
+        ops = [[draw(st.sampled_from(["url", "lru", "list", "item", "url", "lru", "list", "item", "empty-lru"])), draw(url), draw(st.sampled_from(VALS + [4, 5]))] for _ in range(n)]
         queries = draw(st.lists(url, min_size=4, max_size=12)) + [o[1] for o in ops[:5]] + [o[1].rstrip("/") + "/deeper" for o in ops[:3]]
         return {"kind": "lrutrie_history", "cls": cname, "suffix_aware": draw(st.booleans()), "kwargs": kw,
                 "ops": ops, "queries": queries, "every_step": True}
